@@ -1,5 +1,6 @@
 import Driver.Parse
 import FpVerif.Spec.JA3
+import FpVerif.Spec.Capture
 /-!
 `fpdriver`: reads one operation per line on stdin, answers one line per operation on stdout with the
 MODEL's (or the SPECIFICATION's) result. The definitions evaluated here are the ones the theorems in
@@ -10,6 +11,63 @@ open Fp Fp.Driver
 def perrStr : Fp.JA3.PErr → String
   | .badLength => "err badLength" | .wrongType => "err wrongType" | .extBadLength => "err extBadLength"
   | .panic => "panic"
+
+/-- "hex+r<count>x<hh>+..." -/
+def parseParts (s : String) : Option Bytes := do
+  let mut out : Array UInt8 := #[]
+  for p in s.splitOn "+" do
+    if p = "" || p = "-" then continue
+    if p.startsWith "r" then
+      match (p.drop 1).toString.splitOn "x" with
+      | [n, hh] =>
+        let n ← n.toNat?
+        match ← unhex hh with
+        | [b] => out := out ++ Array.replicate n b
+        | _ => none
+      | _ => none
+    else
+      out := out ++ (← unhex p).toArray
+  return out.toList
+
+def capRes (s : Fp.Capture.St) : String :=
+  match (Fp.Capture.getHello s).1 with
+  | .ok b => s!"ok:{b.length}:md5of:{toHex b}"
+  | .error .incomplete => "err:incomplete"
+  | .error .notHandshake => "err:notHandshake"
+  | .error .badVersion => "err:badVersion"
+
+def capRun (stream : Bytes) (cuts : List String) : String := Id.run do
+  let mut st : Fp.Capture.St := {}
+  let mut rest := stream
+  let mut last := capRes st
+  let mut out := "0:" ++ last
+  let mut i := 0
+  for c in cuts do
+    i := i + 1
+    if c = "e" then
+      st := Fp.Capture.read st [] false
+    else
+      let n := c.toNat?.getD 0
+      let ch := rest.take n
+      rest := rest.drop n
+      st := Fp.Capture.read st ch
+    let r := capRes st
+    if r != last then
+      out := out ++ s!" {i}:{r}"
+      last := r
+  return out ++ " up=ok"
+
+def capSpec (stream : Bytes) (cuts : List String) : String := Id.run do
+  let mut rest := stream
+  let mut delivered : Bytes := []
+  for c in cuts do
+    if c != "e" then
+      let n := c.toNat?.getD 0
+      delivered := delivered ++ rest.take n
+      rest := rest.drop n
+  match Fp.Spec.Capture.captured delivered with
+  | some b => return s!"ok:{b.length}:md5of:{toHex b} up=ok"
+  | none => return "none up=ok"
 
 def handle (cmd : String) (args : List String) : String :=
   match cmd, args with
@@ -36,6 +94,20 @@ def handle (cmd : String) (args : List String) : String :=
     match parseHello toks with
     | some h => "ok " ++ toHex (Fp.Spec.JA3.ja3Spec h)
     | none => "bad-op"
+  | "cap", toks =>
+    match kv toks "parts", kv toks "cuts" with
+    | some parts, some cuts =>
+      match parseParts parts with
+      | some stream => capRun stream (if cuts = "" then [] else cuts.splitOn ",")
+      | none => "bad-op"
+    | _, _ => "bad-op"
+  | "capspec", toks =>
+    match kv toks "parts", kv toks "cuts" with
+    | some parts, some cuts =>
+      match parseParts parts with
+      | some stream => capSpec stream (if cuts = "" then [] else cuts.splitOn ",")
+      | none => "bad-op"
+    | _, _ => "bad-op"
   | _, _ => "bad-op"
 
 partial def loop (hin : IO.FS.Stream) (hout : IO.FS.Stream) : IO Unit := do
